@@ -26,7 +26,7 @@ def run(tier, seed, only=None):
         "C09", "cv.props.c09", tier, seed,
         "Summaries of copy/move construction, copy/move assignment, swap and their self-forms: size/capacity/fixed sizes/"
         "used extent of the target equal the source's (pre) (V1); copying stores nothing reachable from the source and every "
-        "observer of the source is unchanged; the copy's block is not the source's; swap exchanges every observer; a "
+        "observer of the source is unchanged; the copy's block and address table are not the source's; swap exchanges every observer; a "
         "moved-from vector either keeps its block entirely unchanged or has no block and size()==0, "
         "memory_consumption()==0 (V2, the state from which ~, clear, assignment and swap are then covered by the ownership "
         "and null-write rules: no operation writes through a null block); self-assignment and self-swap are the identity "
